@@ -30,15 +30,14 @@ Definition split_slices {A : Type} (flags : list bool) (l : list A) : list (list
   | _ => map (fun ab => slice l (fst ab) (snd ab)) (zip_next (split_bounds flags (length l)))
   end.
 
-(* exact-rational reading of evenly spaced sampling: ids_k = floor(k (n-1) / (N-1)) *)
-Definition exact_ids (n N : nat) : list nat := map (fun k => k * (n - 1) / (N - 1)) (seq 0 N).
-
 (* "evenly spaced by index": N indices, first 0, last n-1 (N >= 2), strictly increasing, every gap
    floor((n-1)/(N-1)) or ceil((n-1)/(N-1)). Indices are kept in Z inside the sampling model (binary
    arithmetic; nat is unary and far too slow for the bounded enumeration). *)
 Local Open Scope Z_scope.
 Fixpoint ziota (len : nat) (start : Z) : list Z :=
   match len with O => [] | S l => start :: ziota l (start + 1) end.
+(* exact-rational reading of evenly spaced sampling: ids_k = floor(k (n-1) / (N-1)) *)
+Definition exact_z (n N : Z) : list Z := map (fun k => k * (n - 1) / (N - 1)) (ziota (Z.to_nat N) 0).
 Fixpoint zgaps (l : list Z) : list Z :=
   match l with a :: ((b :: _) as r) => (b - a) :: zgaps r | _ => [] end.
 Definition evenly_spaced_zb (n N : Z) (ids : list Z) : bool :=
@@ -66,13 +65,14 @@ Definition linspace_z (n N : Z) : list Z :=
   map (fun k => if (k =? N - 1)%Z then (n - 1)%Z
                 else floor_near (k * (n - 1) / (N - 1))%Z (nofZ k *! step))
       (ziota (Z.to_nat N) 0%Z).
-Definition linspace_ids (n N : nat) : list nat := map Z.to_nat (linspace_z (Z.of_nat n) (Z.of_nat N)).
 
-(* PosePath3D.downsample: None = TrajectoryException *)
+(* PosePath3D.downsample: None = TrajectoryException; nothing to do when there are at most N poses *)
+Definition downsample_z (n N : Z) : option (list Z) :=
+  if (n <=? N)%Z then Some (ziota (Z.to_nat n) 0%Z)
+  else if (N <? 1)%Z then None
+  else Some (linspace_z n N).
 Definition downsample_ids (n N : nat) : option (list nat) :=
-  if Nat.leb n N then Some (seq 0 n)
-  else if Nat.ltb N 1 then None
-  else Some (linspace_ids n N).
+  option_map (map Z.to_nat) (downsample_z (Z.of_nat n) (Z.of_nat N)).
 
 (* ---------------- filters.filter_by_motion ---------------- *)
 Fixpoint motion_aux (dthr athr : T) (ang : nat -> nat -> T) (prev : nat) (prev_d : T) (i : nat) (ds : list T)
@@ -92,10 +92,13 @@ Definition motion_ids (pi : T) (ps : list (V3 T)) (ang : nat -> nat -> T) (dthr 
   else if athr <?! n0 then None
   else let a := if degrees then deg2rad pi athr else athr in
        Some (0 :: motion_aux dthr a ang 0 n0 1 (tl (acc_dists ps))).
-(* oracle table: row i is an association list  p |-> angle between pose p and pose i *)
-Fixpoint assoc (p : nat) (row : list (nat * T)) (dflt : T) : T :=
-  match row with [] => dflt | (q, a) :: r => if Nat.eqb q p then a else assoc p r dflt end.
-Definition table_ang (rows : list (list (nat * T))) (dflt : T) (p i : nat) : T := assoc p (nth i rows []) dflt.
+(* oracle table keyed by the pair of rotation-matrix classes: cls_p = cls_q iff poses p and q have the
+   same rotation matrix, so the angle is a function of (cls_p, cls_i); row c2 is an association list
+   c1 |-> angle between a pose of class c1 and a pose of class c2 *)
+Fixpoint assoc (a : nat) (row : list (nat * T)) (dflt : T) : T :=
+  match row with [] => dflt | (x, v) :: r => if Nat.eqb x a then v else assoc a r dflt end.
+Definition class_ang (cls : list nat) (rows : list (list (nat * T))) (dflt : T) (p i : nat) : T :=
+  assoc (nth p cls 0) (nth (nth i cls 0) rows []) dflt.
 
 (* ---------------- reduce_to_time_range ---------------- *)
 Definition crop_ids (ts : list T) (start stop : option T) : option (list nat) :=
@@ -152,14 +155,15 @@ Definition argsort_model (keys : list T) : list nat :=
 (* checker for an argsort oracle answer: a permutation of 0..n-1 that puts the keys in non-decreasing order *)
 Fixpoint sorted_b (l : list T) : bool :=
   match l with a :: ((b :: _) as r) => (a <=?! b) && sorted_b r | _ => true end.
-Definition is_argsort_b (keys : list T) (order : list nat) : bool :=
+(* inv is a certificate (the inverse permutation): order[inv[k]] = k for every k < n *)
+Definition is_argsort_b (keys : list T) (order inv : list nat) : bool :=
   Nat.eqb (length order) (length keys) &&
-  forallb (fun i => Nat.eqb (count_occ Nat.eq_dec order i) 1) (seq 0 (length keys)) &&
+  forallb (fun k => Nat.eqb (nth (nth k inv 0) order (length keys)) k) (seq 0 (length keys)) &&
   sorted_b (select_ids n0 keys order).
 End Model.
 
 (* the finite statement about numpy's binary64 linspace, evaluated by vm_compute in SubsampleProofs.v *)
 Definition linspace_zf (n N : Z) : list Z := @linspace_z PrimFloat.float F_ops n N.
-Definition linspace_even_upto (B : nat) : bool :=
-  forallb (fun n => forallb (fun N => evenly_spaced_zb n N (linspace_zf n N)) (ziota (Z.to_nat n - 1) 1%Z))
-          (ziota (S B) 0%Z).
+Definition linspace_row_ok (n : Z) : bool :=
+  forallb (fun N => evenly_spaced_zb n N (linspace_zf n N)) (ziota (Z.to_nat n - 1) 1%Z).
+Definition linspace_even_upto (B : nat) : bool := forallb linspace_row_ok (ziota (S B) 0%Z).
